@@ -51,7 +51,9 @@ def make_cosigner_wallets(case, rnd):
         rnd.shuffle(order)
         keys = [masters[j] if j == i else pubs[j] for j in order]
         db = os.path.join(os.environ['BCL_DATA_DIR'], 'c10_%s_w%d.sqlite' % (case['cseed'], i))
-        w = Wallet.create('c10_%s_w%d' % (case['cseed'], i), keys=keys, sigs_required=m, network=network, witness_type=wt, db_uri=db)
+        # cosigners configure their wallets independently (anti fee sniping on/off => locktime = block height or 0)
+        w = Wallet.create('c10_%s_w%d' % (case['cseed'], i), keys=keys, sigs_required=m, network=network, witness_type=wt, db_uri=db,
+                          anti_fee_sniping=rnd.random() < 0.5)
         wallets.append(w)
     ref = wallet_ref.MultisigRef(seeds, m, network, wt, sort_keys=True, cosigner_index=0)
     return wallets, ref, masters
